@@ -27,6 +27,21 @@ class TextModel(object):
 
     def eval(self, t, model_completion=False):
         r = z3.simplify(z3.substitute(t, *self.values)) if self.values else z3.simplify(t)
+        if model_completion and not (z3.is_int_value(r) or z3.is_rational_value(r) or z3.is_true(r) or z3.is_false(r) or z3.is_bv_value(r)):
+            # constants the solver never saw (they do not occur in the query) take a default value
+            rest = _consts([r])
+            sub = []
+            for c in rest.values():
+                if z3.is_int(c):
+                    sub.append((c, z3.IntVal(0)))
+                elif z3.is_real(c):
+                    sub.append((c, z3.RealVal(0)))
+                elif z3.is_bool(c):
+                    sub.append((c, z3.BoolVal(False)))
+                elif z3.is_bv(c):
+                    sub.append((c, z3.BitVecVal(0, c.size())))
+            if sub:
+                r = z3.simplify(z3.substitute(r, *sub))
         return r
 
     def __getitem__(self, c):
